@@ -723,6 +723,35 @@ def metal_variants():
     return out
 
 
+def isotope_variants():
+    """one hydrogen of every hydrogen-bearing atom of U({C,N,O},3) written as an explicit
+    [2H] atom (a hydrogen that is a real graph atom: atom counts and heavy-atom counts of a
+    fragment differ)"""
+    out, seen = [], set()
+    base = [s for s in universe.U(["C", "N", "O"], 5) if 2 <= _n_heavy(s) <= 3]
+    base += ["CC(C)c1ccc(OC)cc1", "CCOC(C)=O", "CC(=O)NC"]
+    for s in base:
+        m = Chem.MolFromSmiles(s)
+        for a in m.GetAtoms():
+            if a.GetTotalNumHs() == 0:
+                continue
+            rw = Chem.RWMol(m)
+            d = Chem.Atom(1)
+            d.SetIsotope(2)
+            x = rw.AddAtom(d)
+            rw.AddBond(a.GetIdx(), x, SINGLE)
+            mm = rw.GetMol()
+            try:
+                Chem.SanitizeMol(mm)
+            except Exception:
+                continue
+            smi = Chem.MolToSmiles(mm)
+            if oracle.closed_shell(smi) and smi not in seen:
+                seen.add(smi)
+                out.append(smi)
+    return out
+
+
 def molecule_space(tier):
     """-> (items [(spelling, fragmode)], counters)"""
     gen = []
@@ -730,6 +759,7 @@ def molecule_space(tier):
     gen += universe.U(["C", "N", "O"], 5)
     gen += universe.U(["C", "N", "O", "S", "P", "F", "Cl", "Br", "I", "B", "Si"], 3)
     gen += metal_variants()
+    gen += isotope_variants()
     corpus = universe.corpus_molecules() if tier == "thorough" else []
     seen, canon_items, spelled_items = set(), [], []
     n_open_shell = 0
